@@ -145,6 +145,28 @@ func ordCanon(w *World, r *EngineResult) {
 				hasLoop = true
 			}
 		}
+		// … or hands the partitioning to a helper (one level)
+		for _, b := range f.Blocks {
+			for _, ins := range b.Instrs {
+				if c, ok := ins.(*ssa.Call); ok {
+					cal := c.Call.StaticCallee()
+					if cal == nil || len(cal.Blocks) == 0 {
+						continue
+					}
+					pk := cal.Pkg
+					if pk == nil && cal.Origin() != nil { // instance of a generic function
+						pk = cal.Origin().Pkg
+					}
+					if pk != nil && inModule(pk.Pkg.Path()) {
+						for _, l := range findLoops(cal) {
+							if isRangeLoop(l) {
+								hasLoop = true
+							}
+						}
+					}
+				}
+			}
+		}
 		if hasLoop {
 			top = f
 		}
@@ -600,10 +622,15 @@ func ordLoad(w *World, r *EngineResult) {
 					prints, via = true, cal.String()
 				} else if len(cal.Blocks) > 0 && inModule(cal.Pkg.Pkg.Path()) {
 					// the evaluator itself prints only in debug paths; the printers are in cmd
-					if pkgShort(cal) == "cmd" || pkgShort(cal) == "main" {
+					if pkgShort(cal) == "cmd" {
 						if e := eff.Of(cal); e.prints {
 							prints, via = true, fnKey(cal)
 						}
+					}
+					// a helper of package main prints when it does so itself or through cmd —
+					// not because the evaluator it drives has debug output
+					if pkgShort(cal) == "main" && mainPrints(eff, cal, map[*ssa.Function]bool{}) {
+						prints, via = true, fnKey(cal)
 					}
 				}
 			}
@@ -620,7 +647,45 @@ func ordLoad(w *World, r *EngineResult) {
 		}
 	}
 	r.Stats["print_sites_in_analysis_loop"] = n
-	r.floor("print_sites_in_analysis_loop", 8)
+	r.floor("print_sites_in_analysis_loop", 1)
+}
+
+// mainPrints: fn (package main) calls a print function, a printing function of cmd, or a
+// function of main of which the same holds.
+func mainPrints(eff *effectTable, fn *ssa.Function, seen map[*ssa.Function]bool) bool {
+	if seen[fn] {
+		return false
+	}
+	seen[fn] = true
+	for _, b := range fn.Blocks {
+		for _, ins := range b.Instrs {
+			c, ok := ins.(*ssa.Call)
+			if !ok {
+				continue
+			}
+			cal := c.Call.StaticCallee()
+			if cal == nil {
+				continue
+			}
+			if isPrintFunc(cal) {
+				return true
+			}
+			if cal.Pkg == nil || len(cal.Blocks) == 0 {
+				continue
+			}
+			switch pkgShort(cal) {
+			case "cmd":
+				if eff.Of(cal).prints {
+					return true
+				}
+			case "main":
+				if mainPrints(eff, cal, seen) {
+					return true
+				}
+			}
+		}
+	}
+	return false
 }
 
 // ---- ORD-overload (C19) ----
@@ -748,6 +813,7 @@ func ordOverload(w *World, r *EngineResult) {
 
 func ordRow(w *World, r *EngineResult) {
 	dispatcherRegs = findRegistries(w)
+	dispatcherWorld = w
 	a := newAE(w, envNone, "quick")
 	// transitive "reads tokens"
 	readsT := map[*ssa.Function]int8{}
@@ -973,6 +1039,42 @@ var dispatcherRegs []*registry
 // isDispatcher: the function looks an evaluator up in one of the registries (package-level
 // maps of module interfaces) — the point where a construct starts.
 func isDispatcher(f *ssa.Function) bool {
+	if looksUpRegistry(f) {
+		return true
+	}
+	// a private helper extracted from the dispatcher (its only caller) still belongs to it
+	if dispatcherWorld != nil {
+		cg := dispatcherWorld.CallGraph()
+		for _, b := range f.Blocks {
+			for _, ins := range b.Instrs {
+				c, ok := ins.(*ssa.Call)
+				if !ok {
+					continue
+				}
+				cal := c.Call.StaticCallee()
+				if cal == nil || cal.Pkg != f.Pkg || !looksUpRegistry(cal) {
+					continue
+				}
+				only := true
+				if n := cg.Nodes[cal]; n != nil {
+					for _, in := range n.In {
+						if in.Caller.Func != f {
+							only = false
+						}
+					}
+				}
+				if only {
+					return true
+				}
+			}
+		}
+	}
+	return false
+}
+
+var dispatcherWorld *World
+
+func looksUpRegistry(f *ssa.Function) bool {
 	for _, b := range f.Blocks {
 		for _, ins := range b.Instrs {
 			var m ssa.Value
